@@ -43,7 +43,7 @@ def aa_config():
     return float(abtem.config.get("antialias.cutoff")), float(abtem.config.get("antialias.taper"))
 
 
-def aa_zones(gpts, sampling, margin=1e-6):
+def aa_zones(gpts, sampling, margin=1e-5):
     """(flat, outside) boolean masks of the anti-alias aperture derived from the config values.
 
     flat    : |k| <  cutoff - taper - margin   -> the aperture must be exactly 1
@@ -116,3 +116,56 @@ def member_arrays(obj):
     if hasattr(arr, "compute"):
         arr = arr.compute()
     return np.asarray(arr)
+
+
+# ------------------------------------------------------------------------------------------------ tilt specifications
+def tilt_arg(spec):
+    """abTEM `tilt=` argument for a JSON tilt spec: none | base (tx,ty) | axes (x values, y values or scalar) | pairs Nx2."""
+    from abtem import distributions as D
+    k = spec["kind"]
+    if k == "none":
+        return (0.0, 0.0)
+    if k == "base":
+        return tuple(spec["t"])
+    if k == "axes":
+        x = D.from_values(spec["x"]) if isinstance(spec["x"], list) else spec["x"]
+        y = D.from_values(spec["y"]) if isinstance(spec["y"], list) else spec["y"]
+        return (x, y)
+    return np.array(spec["t"], dtype=float)
+
+
+def tilt_members(spec):
+    """float64 array tilt_shape + (2,) with the (tx, ty) [mrad] each ensemble member must experience."""
+    k = spec["kind"]
+    if k == "none":
+        return np.zeros((2,))
+    if k == "base":
+        return np.array(spec["t"], dtype=float)
+    if k == "pairs":
+        return np.array(spec["t"], dtype=float).reshape(-1, 2)
+    xs = spec["x"] if isinstance(spec["x"], list) else None
+    ys = spec["y"] if isinstance(spec["y"], list) else None
+    if xs is not None and ys is not None:
+        out = np.zeros((len(xs), len(ys), 2))
+        out[..., 0] = np.array(xs)[:, None]
+        out[..., 1] = np.array(ys)[None, :]
+        return out
+    if xs is not None:
+        return np.stack([np.array(xs, dtype=float), np.full(len(xs), float(spec["y"]))], axis=-1)
+    if ys is not None:
+        return np.stack([np.full(len(ys), float(spec["x"])), np.array(ys, dtype=float)], axis=-1)
+    return np.array([float(spec["x"]), float(spec["y"])])
+
+
+def tilted_waves(array_fn, gpts, sampling, energy, spec, lead=()):
+    """Waves carrying exactly the tilt metadata / tilt axes abTEM attaches itself (taken from a built PlaneWave) and the
+    array array_fn(tilt_shape + lead) -> complex array of shape tilt_shape + lead + gpts."""
+    import abtem
+    from abtem.core.axes import OrdinalAxis
+    pw = abtem.PlaneWave(energy=energy, gpts=tuple(gpts), sampling=tuple(sampling), tilt=tilt_arg(spec)).build(lazy=False)
+    lead_axes = [OrdinalAxis(values=tuple(range(n))) for n in lead]
+    shape = tuple(pw.shape[:-2]) + tuple(lead)
+    arr = np.asarray(array_fn(shape)).astype(pw.array.dtype)
+    meta = {k: v for k, v in pw.metadata.items() if k.startswith("base_tilt")}
+    return abtem.Waves(arr, energy=energy, sampling=tuple(sampling), metadata=meta,
+                       ensemble_axes_metadata=list(pw.ensemble_axes_metadata) + lead_axes)
